@@ -57,12 +57,10 @@ def runeStartAux : Nat → Bytes → Nat → Nat
 
 def runeStart (s : Bytes) (k : Nat) : Nat := runeStartAux (s.length + 1) s k
 
-/-- `sliceString(v, e, s)` with integer (or null = `none`) bounds: `.[s:e]` on a string.
-    `toInt`/`toIntCeil` on integers are the identity on Go `int`s (saturation of integers
-    beyond 64 bits is `satInt`, applied by `strSlice`).
-    The final Go expression `v[start:end]` would panic for `start > end`; `slice_bytes_ordered`
-    (Props/C14.lean) shows the byte offsets are ordered, so `drop`/`take` is that expression. -/
-def sliceStr (v : Bytes) (e st : Option Int) : Bytes :=
+/-- the two byte offsets `(start, end)` sliceString computes before the final `v[start:end]`,
+    for integer (or null = `none`) bounds.  `toInt`/`toIntCeil` on integers are the identity on Go
+    `int`s (saturation of integers beyond 64 bits is `satInt`, applied by the driver). -/
+def sliceOffsets (v : Bytes) (e st : Option Int) : Nat × Nat :=
   let l : Int := (strLength v : Nat)
   let start : Int := match st with
     | none => 0
@@ -72,7 +70,13 @@ def sliceStr (v : Bytes) (e st : Option Int) : Bytes :=
     | some i => clampIndex i start l
   let a := if start < l then runeStart v start.toNat else v.length
   let b := if end_ < l then runeStart v end_.toNat else v.length
-  (v.drop a).take (b - a)
+  (a, b)
+
+/-- `sliceString(v, e, s)`: `.[s:e]` on a string.  The final Go expression `v[start:end]` would
+    panic for `start > end` or `end > len(v)`; `slice_bytes_ordered` (Props/C14.lean) shows the
+    offsets are ordered and in range, so `drop`/`take` is that expression. -/
+def sliceStr (v : Bytes) (e st : Option Int) : Bytes :=
+  (v.drop (sliceOffsets v e st).1).take ((sliceOffsets v e st).2 - (sliceOffsets v e st).1)
 
 /-- `slice(vs, e, s)`: `.[s:e]` on an ARRAY (`vs[start:end]` after the same clamping) — the
     specification side of `slice_is_codepoint_slice`. -/
@@ -232,10 +236,12 @@ def test (raw : Raw) : Bool := !raw.isEmpty
 
 /-- `w[name] = capture["string"]` for every capture whose name is a string, in order
     (a later group of the same name overwrites: Go's regexp accepts duplicate names) -/
-def capturesKvs (caps : List Cap) : List (Bytes × JV) :=
-  caps.foldl (fun acc c => match c.name with
-    | some n => kvInsert n (jOptStr c.string) acc
-    | none => acc) []
+def capStep (acc : List (Bytes × JV)) (c : Cap) : List (Bytes × JV) :=
+  match c.name with
+  | some n => kvInsert n (jOptStr c.string) acc
+  | none => acc
+
+def capturesKvs (caps : List Cap) : List (Bytes × JV) := caps.foldl capStep []
 
 /-! ## builtin.jq -/
 
@@ -294,6 +300,13 @@ def subCore (s : Bytes) (mos : List (Match × List Bytes)) : List Bytes :=
 def sub (s : Bytes) (ms : List Match) (rep : List (Bytes × JV) → List Bytes) : List Bytes :=
   subCore s (ms.map fun m => (m, rep (capturesKvs m.captures)))
 
+/-- the replacement filter `.name` as a function of the capture object (a null or absent value
+    contributes nothing: `string + null = string`) -/
+def fieldRep (k : Bytes) (kvs : List (Bytes × JV)) : List Bytes :=
+  match kvLookup k kvs with
+  | some (.str b) => [b]
+  | _ => [[]]
+
 /-- `def gsub($re; str; $flags): sub($re; str; $flags + "g")` — the same fold over the global matches -/
 def gsub (s : Bytes) (ms : List Match) (rep : List (Bytes × JV) → List Bytes) : List Bytes := sub s ms rep
 
@@ -335,5 +348,17 @@ def orderedFrom : Int → Raw → Bool
     answer of the real engine it feeds in -/
 def matchesOK (s : Bytes) (names : List Bytes) (raw : Raw) : Bool :=
   Utf8.valid s && raw.all (matchOK s names) && orderedFrom 0 raw
+
+/-! ## specification vocabulary (used only in the statements of Props/C14.lean) -/
+
+/-- `p0 ++ m1 ++ p1 ++ … ++ mn ++ pn`: pieces interleaved with separators -/
+def interleave : List Bytes → List Bytes → Bytes
+  | [], _ => []
+  | p :: ps, [] => p ++ interleave ps []
+  | p :: ps, m :: ms => p ++ m ++ interleave ps ms
+
+/-- what funcMatch turns `SubexpNames()[1:]` into: `""` ↦ null -/
+def capNames (names : List Bytes) : List (Option Bytes) :=
+  names.tail.map fun n => if n.isEmpty then none else some n
 
 end Gojq.Regex
